@@ -66,6 +66,10 @@ def merge_outs(outs, total, tool):
             v = dict(v)
             v["signature"] = v.get("signature", "") + ":under-" + tool
             total["violations"].append(v)
+        for k, n in d.get("features", {}).items():
+            if k.startswith("hook:"):
+                kk = "%s:%s" % (tool, k)
+                total["features"][kk] = total["features"].get(kk, 0) + n
         for k, n in d.get("inconclusive", {}).items():
             total["inconclusive"]["%s: %s" % (tool, k)] = total["inconclusive"].get("%s: %s" % (tool, k), 0) + n
     return ev, cases_done
